@@ -11,6 +11,9 @@ CHECKS = {
  "C19": dict(level="model_checking", technique="CrossHair/z3 bounded symbolic execution of ResourceQuerySegment.to_absolute and Query.to_absolute against a POSIX-normpath reference model",
              text="Bounded exhaustive symbolic exploration: every directory depth <=3 (thorough 4) x every component-class vector of length <=4 (thorough 6) is covered by an exhausted path tree of the real to_absolute code; Query-level frame/idempotence obligations over <=3 segments.",
              design="§4 C19"),
+ "C20": dict(level="model_checking", technique="CrossHair/z3 bounded symbolic execution of the enable/disable gate and register_remote_serialized over all call histories within the bound",
+             text="Gate clause only: for every enable/disable history of length <=6 (thorough 10) the gate equals the last call, a refused registration returns the error and leaves the registry unchanged, and the real Flask endpoints (run untraced per path) refuse exactly when the gate is closed. All other HTTP clauses of C20 are outside the claim.",
+             design="§4 C20"),
 }
 NOT_APPLICABLE = {
  "C02": "quantifies over all strings accepted by the pyparsing grammar; acceptance by ~60 regex-backed combinators cannot be executed symbolically (CrossHair realises values inside the regex engine, >8 s/path); re-implementing the grammar in SMT would verify a transcription, not liquer. The parameter-rule part is decided under C03.",
